@@ -263,6 +263,10 @@ Section Vec.
   Definition vimpl_eval (m : model) md t y : list (list Qc) :=
     map (fun u => impl_eval hist (fun x => (start x + u)%nat) (fun p => par p u) (fun p => dpar p 0%nat) m md t y) (seq 0 n).
 End Vec.
+(* the behaviour with /verif/fixes/proposed_fix_C10_F5.diff: compilation is refused (None) when a delay parameter differs
+   between the units *)
+Definition vimpl_eval_checked (uniform : bool) hist start par dpar n (m : model) md t y : option (list (list Qc)) :=
+  if uniform then Some (vimpl_eval hist start par dpar n m md t y) else None.
 (* guard of finding C10-F5, for parameter tables given as lists (row p = values of delay parameter p over the units) *)
 Definition delays_uniform (dps : list (list Qc)) : bool :=
   forallb (fun r => forallb (fun v => Qc_eqb v (nth 0 r 0)) r) dps.
